@@ -22,8 +22,10 @@ import (
 	"sort"
 	"strconv"
 	"strings"
+	"sync"
 	"time"
 
+	"rgverif/internal/cluster"
 	"rgverif/internal/common"
 	"rgverif/internal/evidence"
 	"rgverif/internal/findings"
@@ -44,6 +46,8 @@ var (
 	fJournal = flag.String("journal", "", "worker journal file")
 	fSkip    = flag.Int("skip", 0, "number of this batch's inputs to skip (resume after a hang)")
 )
+
+var sigMu sync.Mutex
 
 var alphabet = []string{"", "0", "1", "-1", "2", "a", "k", "*", "(1", "nx", "xx", "ch", "incr", "ex", "px",
 	"limit", "byscore", "withscores", "count", "rank", "maxlen", "minid", "left", "right",
@@ -416,6 +420,194 @@ func tcpVehicle(o *common.Opts, nInputs int, report func(witness)) (sent int, se
 	return sent, servers, ""
 }
 
+// rawInputs are byte strings no argv encodes: the empty command, the empty command name, null elements.
+var rawInputs = []string{"*0\r\n", "*0\r\n*1\r\n$4\r\nPING\r\n", "*1\r\n$0\r\n\r\n", "*1\r\n$-1\r\n", "*-1\r\n", "*2\r\n$3\r\nGET\r\n$-1\r\n",
+	"*1\r\n*0\r\n", "$4\r\nPING\r\n", "+PING\r\n", ":1\r\n", "-ERR x\r\n", "PING\r\n", "\r\n", "*1\r\n$1\r\n \r\n", "*2\r\n$0\r\n\r\n$0\r\n\r\n"}
+
+// clusterRconf are membership commands that must not change the membership of a one-node cluster (malformed, or
+// naming no member), so the node has to keep serving after each of them.
+var clusterRconf = [][]string{{"rconf"}, {"rconf", "add"}, {"rconf", "add", "x"}, {"rconf", "add", "x", "y"}, {"rconf", "add", "-1", "http://127.0.0.1:1"},
+	{"rconf", "add", "18446744073709551616", "u"}, {"rconf", "bogus", "1"}, {"rconf", "delete", "x"}, {"rconf", "delete", ""}, {"rconf", "delete", "-1"},
+	{"RCONF", "DELETE", "1e3"}, {"rconf", "update"}, {"rconf", "update", "x"}, {"member"}, {"member", "list"}, {"MEMBER", "LIST", "x"}, {"member", "x"}, {"member", ""}}
+
+// clusterVehicle drives sampled inputs through one-node clusters (HandleCluster, the command filter, the proposal
+// round trip and the apply loop are a second connection loop with its own failure modes): after every input the
+// node process must be alive, the same connection (when the input is a well-formed command) and a fresh connection
+// must get answers, and a write must still commit.
+func clusterVehicle(o *common.Opts, nInputs int, report func(witness)) (sent int, nodes int, note string) {
+	if procs.Bin(false) == "" {
+		return 0, 0, "server binary not available"
+	}
+	r := rand.New(rand.NewSource(o.Seed + 77))
+	inproc.Setup(4, 1, filepath.Join(o.Work, "log"))
+	names := inproc.Commands()
+	sort.Strings(names)
+	type input struct {
+		argv []string
+		raw  string
+	}
+	var pool []input
+	for _, name := range names {
+		if skip(name) || name == "rconf" {
+			continue
+		}
+		var all [][]string
+		enumerate(name, false, func(argv []string) { all = append(all, append([]string{}, argv...)) })
+		per := nInputs / len(names)
+		if per < 3 {
+			per = 3
+		}
+		if name == "blpop" || name == "brpop" {
+			per = 2
+		}
+		for i := 0; i < per && len(all) > 0; i++ {
+			pool = append(pool, input{argv: sanitize(name, all[r.Intn(len(all))])})
+		}
+	}
+	r.Shuffle(len(pool), func(i, j int) { pool[i], pool[j] = pool[j], pool[i] })
+	for _, a := range clusterRconf {
+		pool = append(pool, input{argv: a})
+	}
+	for _, raw := range rawInputs {
+		pool = append(pool, input{raw: raw})
+	}
+	const lanes = 4
+	var mu sync.Mutex
+	var wg sync.WaitGroup
+	notes := map[string]bool{}
+	for lane := 0; lane < lanes; lane++ {
+		wg.Add(1)
+		go func(lane int) {
+			defer wg.Done()
+			var mine []input
+			for i := lane; i < len(pool); i += lanes {
+				mine = append(mine, pool[i])
+			}
+			for len(mine) > 0 {
+				dir := filepath.Join(o.Work, fmt.Sprintf("cl-%d-%d", lane, len(mine)))
+				cl, err := cluster.New(dir, 1, false, nil)
+				if err != nil {
+					mu.Lock()
+					notes["cluster layout failed: "+err.Error()] = true
+					mu.Unlock()
+					return
+				}
+				if err := cl.StartAll(); err != nil || !cl.WaitAllWritable(90*time.Second) {
+					cl.Stop()
+					_ = os.RemoveAll(dir)
+					mu.Lock()
+					notes["one-node cluster did not become writable"] = true
+					mu.Unlock()
+					return
+				}
+				mu.Lock()
+				nodes++
+				mu.Unlock()
+				nd := cl.Nodes[0]
+				c, err := respc.Dial(nd.Addr(), 10*time.Second)
+				if err != nil {
+					cl.Stop()
+					_ = os.RemoveAll(dir)
+					return
+				}
+				for _, p := range preset {
+					_, _ = c.Do(p...)
+				}
+				consumed := 0
+				for _, in := range mine {
+					consumed++
+					mu.Lock()
+					sent++
+					mu.Unlock()
+					var shown []string
+					name := "RAW"
+					if in.raw != "" {
+						shown = []string{strconv.Quote(in.raw)}
+					} else {
+						shown = seqrun.QuoteFull(respc.Cmd(in.argv...))
+						name = strings.ToUpper(in.argv[0])
+					}
+					dead := func(kind, detail string) {
+						report(witness{Kind: kind, Argv: shown, Detail: "one-node cluster: " + detail, Sig: kind + "|cluster|" + name})
+					}
+					gone := func() bool { return nd.Srv.WaitExit(500 * time.Millisecond) }
+					stop := false
+					if in.raw != "" {
+						// damaged or unusual bytes on their own connection: any reply, an error or a close is fine
+						rc, err := respc.Dial(nd.Addr(), 10*time.Second)
+						if err == nil {
+							_ = rc.SendRaw([]byte(in.raw))
+							_, _ = rc.RecvTimeout(300 * time.Millisecond)
+							rc.Close()
+						}
+					} else {
+						_, err := c.Do(in.argv...)
+						if err != nil {
+							if gone() {
+								dead("tcp-dead", "node process exited: "+nd.Srv.CrashBlock(24))
+								stop = true
+							} else if ne, ok := err.(interface{ Timeout() bool }); ok && ne.Timeout() {
+								dead("tcp-hang", "no reply within 10s; goroutine dump:\n"+inproc.TopFrames(nd.Srv.Dump(), 10))
+								stop = true
+							} else {
+								c.Close()
+								if c, err = respc.Dial(nd.Addr(), 10*time.Second); err != nil {
+									dead("tcp-dead", "cannot reconnect: "+err.Error())
+									stop = true
+								}
+							}
+						} else if v, err := c.Do("PING"); err != nil || string(v.Str) != "PONG" {
+							if gone() {
+								dead("tcp-dead", "node process exited: "+nd.Srv.CrashBlock(24))
+							} else {
+								dead("tcp-hang", "PING after the input not answered on the same connection; dump:\n"+inproc.TopFrames(nd.Srv.Dump(), 10))
+							}
+							stop = true
+						}
+					}
+					if !stop {
+						// fresh connection: the node answers and a write still commits
+						c2, err := respc.Dial(nd.Addr(), 10*time.Second)
+						if err != nil {
+							if gone() {
+								dead("tcp-dead", "node process exited: "+nd.Srv.CrashBlock(24))
+							} else {
+								dead("tcp-dead", "fresh connection refused: "+err.Error())
+							}
+							stop = true
+						} else {
+							for _, pr := range [][]string{{"EXISTS", "nokey"}, {"SET", "probe-" + strconv.Itoa(consumed%8), "1"}} {
+								if _, err := c2.Do(pr...); err != nil {
+									if gone() {
+										dead("tcp-dead", "node process exited: "+nd.Srv.CrashBlock(24))
+									} else {
+										dead("tcp-hang", fmt.Sprintf("probe %v on a fresh connection not answered within 10s; dump:\n%s", pr, inproc.TopFrames(nd.Srv.Dump(), 10)))
+									}
+									stop = true
+									break
+								}
+							}
+							c2.Close()
+						}
+					}
+					if stop {
+						break
+					}
+				}
+				mine = mine[consumed:]
+				c.Close()
+				cl.Stop()
+				_ = os.RemoveAll(dir)
+			}
+		}(lane)
+	}
+	wg.Wait()
+	for n := range notes {
+		note += n + "; "
+	}
+	return sent, nodes, note
+}
+
 func tailOf(s string, n int) string {
 	if len(s) > n {
 		return s[len(s)-n:]
@@ -532,6 +724,16 @@ func main() {
 			bySig[w.Sig] = w
 		}
 	})
+	clSent, clNodes, clNote := clusterVehicle(o, o.Pick(500, 12000), func(w witness) {
+		sigMu.Lock()
+		defer sigMu.Unlock()
+		if _, ok := bySig[w.Sig]; !ok {
+			bySig[w.Sig] = w
+		}
+	})
+	if clNote != "" {
+		tcpNote += " cluster vehicle: " + clNote
+	}
 	sigs := make([]string, 0, len(bySig))
 	for s := range bySig {
 		sigs = append(sigs, s)
@@ -563,22 +765,25 @@ func main() {
 	}
 	ev := &evidence.Evidence{PropertyID: prop, Tier: o.Tier, Seed: o.Seed, Level: "exploration", WallS: o.Elapsed(), Violations: violations,
 		Coverage: map[string]any{
-			"evaluations":         agg.Inputs + tcpSent,
+			"evaluations":         agg.Inputs + tcpSent + clSent,
 			"distinct_nontrivial": len(agg.Kinds),
 			"rule": "every registered command (from memdb.CmdTable, minus verif.*) x arity 0..N x first argument in {missing key, one key of each of the six types} x adversarial alphabet " +
 				"(full 35-symbol alphabet up to arity 3, command option words + extremes beyond); each input on a fresh preset keyspace under recover, then try-lock sweep of all stripes and probes on the same and another key; " +
-				"distinct = distinct (command, reply kind) pairs observed; TCP: sampled inputs against the real binary with same-connection, same-key, per-stripe and fresh-connection probes",
-			"samples":              []any{[]string{"SETRANGE", "ks", "9223372036854775807", "a"}, []string{"ZADD", "kz", "ch", "incr", "nan", "m"}, []string{"XADD", "kx", "maxlen"}},
-			"exhaustive":           inconclusive == "",
-			"inputs_per_command":   agg.PerCmd,
-			"commands":             len(agg.PerCmd),
-			"blocking_pop_inputs":  agg.Blocking,
-			"tcp_inputs":           tcpSent,
-			"tcp_server_processes": tcpServers,
-			"tcp_note":             tcpNote,
-			"signatures":           len(sigs),
-			"known_finding_hits":   knownHits,
-			"violation_samples":    vsamples,
+				"distinct = distinct (command, reply kind) pairs observed; TCP: sampled inputs against the real binary with same-connection, same-key, per-stripe and fresh-connection probes; " +
+				"cluster: sampled inputs, malformed membership commands and raw byte strings (empty command, null elements, non-array values) through one-node clusters with same-connection, fresh-connection and commit probes",
+			"samples":                []any{[]string{"SETRANGE", "ks", "9223372036854775807", "a"}, []string{"ZADD", "kz", "ch", "incr", "nan", "m"}, []string{"XADD", "kx", "maxlen"}},
+			"exhaustive":             inconclusive == "",
+			"inputs_per_command":     agg.PerCmd,
+			"commands":               len(agg.PerCmd),
+			"blocking_pop_inputs":    agg.Blocking,
+			"tcp_inputs":             tcpSent,
+			"tcp_server_processes":   tcpServers,
+			"tcp_note":               tcpNote,
+			"cluster_inputs":         clSent,
+			"cluster_node_processes": clNodes,
+			"signatures":             len(sigs),
+			"known_finding_hits":     knownHits,
+			"violation_samples":      vsamples,
 		},
 		Assumptions: []string{"exhaustive only inside the stated arity/alphabet box (blocking pops sampled 1 in 23)", "BLPOP/BRPOP are issued with timeout 1 (timeout 0 blocks by definition)",
 			"inputs whose reference output exceeds 10^5 elements are not generated", "the expired-key state is covered by C06"}}
@@ -586,8 +791,8 @@ func main() {
 		ev.Coverage["inconclusive"] = inconclusive
 	}
 	_ = evidence.Write(o.Evidence, ev)
-	fmt.Printf("%s %s seed=%d: %d in-process inputs over %d commands, %d TCP inputs on %d server processes, %d signatures (%d unmatched), %.1fs %s\n",
-		prop, o.Tier, o.Seed, agg.Inputs, len(agg.PerCmd), tcpSent, tcpServers, len(sigs), violations, o.Elapsed(), tcpNote)
+	fmt.Printf("%s %s seed=%d: %d in-process inputs over %d commands, %d TCP inputs on %d server processes, %d inputs through %d one-node clusters, %d signatures (%d unmatched), %.1fs %s\n",
+		prop, o.Tier, o.Seed, agg.Inputs, len(agg.PerCmd), tcpSent, tcpServers, clSent, clNodes, len(sigs), violations, o.Elapsed(), tcpNote)
 	if violations > 0 {
 		o.Cleanup()
 		os.Exit(common.ExitViolation)
